@@ -54,7 +54,7 @@ def document(n, variant=0):
         fields = [
             ("author", "{Author%d, A. and de la Other%d, B. C.}" % (i, i)),
             ("title", ('"%s %d"' if i % 2 else "{%s %d}") % (_TITLES[i % len(_TITLES)] if i % 2 == 0 or '"' not in _TITLES[i % len(_TITLES)] else "Plain", i)),
-            ("year", str(1900 + i % 120)),
+            ("Year" if i % 4 == 1 else "year", str(1900 + i % 120)),  # (field names come in any letter case)
             ("month", ["jan", "feb", "mar"][i % 3]),
             ("publisher", _STRKEYS[i % len(_STRKEYS)] if i % 3 else '%s # " and Sons"' % _STRKEYS[i % len(_STRKEYS)]),
         ]
